@@ -330,3 +330,45 @@ Lemma witnesses_not_natural :
   map naturalb [wit_bitfield; wit_bitfield_float; wit_packed; wit_alignas; wit_flexible; wit_valist_x86]
   = [false; false; false; false; false; false].
 Proof. vm_compute. reflexivity. Qed.
+
+(* two more weaknesses of the same member loop, found by the generated types *)
+(* the search takes a later bit-field at the same offset for "a larger storage unit" without comparing the units:
+   struct { short a : 7; char b : 1; }  is 2 bytes align 2, described as { b, } *)
+Definition wit_bitfield_small : ctype :=
+  CRec 1 true false 2 2 (MCons (CScal (SkInt IShort)) 0 (Some (0, 9)) (MCons ch 0 (Some (7, 0)) MNil)).
+Definition tshort := mkT 2 2 true false false false false false.
+Theorem descriptor_smaller_unit_refuted :
+  record_layout true false [INamed tshort 0 (Some 7); INamed tchar 0 (Some 1)]
+    = Ok (mkT 2 2 false false false false false false, [mkM true 2 0 0 9; mkM true 1 0 7 0]) /\
+  desc_info true wit_bitfield_small 1 = Some (mkLI 1 1 [(0, 1, KInt)]) /\
+  csize wit_bitfield_small = 2 /\ calign wit_bitfield_small = 2.
+Proof. vm_compute. auto. Qed.
+
+(* no padding is ever printed: storage occupied by unnamed bit-fields in front of a member disappears:
+   struct { signed char : 7; double d; }  is 16 bytes with d at 8, described as { d, } *)
+Definition wit_bitfield_pad : ctype := CRec 1 true false 16 8 (MCons f64 8 None MNil).
+Theorem descriptor_padding_refuted :
+  record_layout true false [IUnnamedBf tchar 7; INamed tdouble 0 None]
+    = Ok (mkT 16 8 false false false false false false, [mkM true 8 8 0 0]) /\
+  desc_info true wit_bitfield_pad 1 = Some (mkLI 8 8 [(0, 8, KFlt)]) /\
+  cinfo wit_bitfield_pad = mkLI 16 8 [(8, 8, KFlt)] /\ naturalb wit_bitfield_pad = false.
+Proof. vm_compute. auto. Qed.
+
+(* the storage unit of a bit-field is printed whole even when it starts inside members already printed:
+   struct { int a; struct { int p, q; } s; char y; long c : 3; }  is 16 bytes (c lives in the long at offset 8,
+   s occupies 4..12), described as { w, :s, l, } = 24 bytes *)
+Definition wit_bitfield_overlap : ctype :=
+  CRec 1 true false 16 8
+    (MCons i32 0 None (MCons (CRec 2 true false 8 4 (MCons i32 0 None (MCons i32 4 None MNil))) 4 None
+    (MCons ch 12 None (MCons (CScal (SkInt ILong)) 8 (Some (40, 21)) MNil)))).
+Definition tlong8 := mkT 8 8 true false false false false false.
+Theorem descriptor_overlap_refuted :
+  record_layout true false [INamed tint 0 None; INamed (mkT 8 4 false false false false false false) 0 None;
+                            INamed tchar 0 None; INamed tlong8 0 (Some 3)]
+    = Ok (mkT 16 8 false false false false false false,
+          [mkM true 4 0 0 0; mkM true 8 4 0 0; mkM true 1 12 0 0; mkM true 8 8 40 21]) /\
+  option_map l_size (desc_info true wit_bitfield_overlap 1) = Some 24 /\ csize wit_bitfield_overlap = 16 /\
+  e_out (emittype true wit_bitfield_overlap est0) =
+    [mkTD 2 None (BStruct [(FBase Fw, 1); (FBase Fw, 1)]);
+     mkTD 1 None (BStruct [(FBase Fw, 1); (FType 2, 1); (FBase Fl, 1)])].
+Proof. vm_compute. auto. Qed.
